@@ -66,7 +66,12 @@ CHECKS = {
 
 NA = {}
 
-for p in ["C02", "C06", "C08", "C16", "C17", "C18", "C19", "C20", "C01", "C03"]:
+CHECKS["C06"] = ("model_checking", "5/C06",
+         "Shape(m,h) (crypt(5) grammar per method, fixed digest length, passwd(5)-safe alphabet) is a law of the model on grammar-directed domains "
+         "(SettingsLaws.tla) and is evaluated by TLC on every successful result recorded from the real library (all setting forms incl. maximal salts, "
+         "output fields holding junk or a longer earlier result); each distinct result is fed back to crypt_checksalt and crypt_gensalt_rn.",
+         "TLC law checking + trace validation of recorded results against Shape", "salt-length caps of the man page regexes are not enforced")
+for p in ["C02", "C08", "C16", "C17", "C18", "C19", "C20"]:
     NA.setdefault(p, "check under construction in this round (see DESIGN.md section 9); not claimed until its machinery is committed")
 
 
